@@ -1,10 +1,12 @@
 #!/usr/bin/env python3
-import json, glob, os
-for f in sorted(glob.glob('/tmp/sv_C*.json')):
+"""seed_report.py [prefix=/tmp/sv] : one line per processed seed."""
+import json, sys, glob
+pre = sys.argv[1] if len(sys.argv) > 1 else '/tmp/sv'
+for f in sorted(glob.glob(pre + '_C*.json')):
+    t = open(f).read()
     try:
-        txt = open(f).read()
-        r = json.loads(txt[txt.index('{'):])
-        ch = {c: (v['exit'], v['signatures'][:2], v['fault'][:1]) for c, v in r['checks'].items()}
-        print(os.path.basename(f)[3:-5], 'confirmed' if r['confirmed'] else 'UNCONFIRMED %s' % {k: r.get(k) for k in ['demo_passes_without_change','applies','builds','existing_tests_pass','demo_fails_with_change']}, ch, '|', (r.get('title') or '')[:70])
+        d = json.loads(t[t.find('{'):])
+        print(f.split('_')[-1][:-5], 'confirmed' if d.get('confirmed') else 'UNCONFIRMED',
+              {c: (v['exit'], v['signatures'][:1], v['fault'][:1]) for c, v in d['checks'].items()}, d.get('existing_tests_failures') or '')
     except Exception as e:
-        print(os.path.basename(f), 'not ready', str(e)[:60])
+        print(f, 'pending/err', str(e)[:40])
